@@ -16,7 +16,9 @@ drop_cache, first access of states): for EVERY history of operations every read 
 matrix of the epoch in force, with caching on or off; the number of recomputations is bounded; the
 repaired consumer (update_epoch before reading) is correct and the pre-fix stale read is refuted by
 a kernel-checked 2-step history. Query procedures are sequences of these operations followed by pure
-evaluation (code_accumulate_pointwise). Partial: process pools (imap order) are a runtime parameter.
+evaluation (code_accumulate_pointwise). Worker pools: for EVERY completion schedule the ordered
+iterator hands the results back in data order, so the assembled SFS vectors and matrices equal the
+sequential ones (ParallelThm); the operating system scheduler itself is the quantified parameter.
 
 This file restates the theorems the property rests on (full statements; proofs are in PGProofs/).
 Generated once by harness/mkprops.py from harness/props_table.py + PGProperties/extra/C17.lean.in; committed as source.
@@ -27,6 +29,7 @@ import PGProofs.MomentsThm
 import PGProofs.MemoThm
 import PGProofs.ShareThm
 import PGProofs.EpochKeyThm
+import PGProofs.ParallelThm
 
 set_option linter.all false
 set_option pp.fieldNotation.generalized false
@@ -36,6 +39,21 @@ open PG
 
 /-- every answer of every history equals the cache-free specification -/
 theorem refinement : ∀ {E M : Type} [inst : BEq E] [LawfulBEq E] (compute : E → M) (s : Cache.State E M), Cache.Inv compute s → ∀ (ops : List (Cache.Op E)), (Cache.run compute s ops).2 = Cache.specRun compute s.epoch ops := @PG.Cache.C17_refinement
+
+/-- utils.parallelize: for every completion schedule of the worker pool, with or without progress bar, the result list is data.map f -/
+theorem pool_schedule_irrelevant : ∀ {α β : Type} (f : α → β) (data : List α) (par pbar : Bool) (sched : List ℕ), List.Perm sched (List.range (List.length data)) → Parallel.parallelizeCall Parallel.Variant.current f data par pbar sched = List.map f data := @PG.Parallel.parallelize_schedule_irrelevant
+
+/-- the SFS vector assembled from a parallel run has f(i) at every bin of the index list and 0 elsewhere, for every schedule -/
+theorem pool_sfs_vector : ∀ {β : Type} (zero : β) (n : ℕ) (indices : List ℕ) (f : ℕ → β) (par pbar : Bool) (sched : List ℕ), List.Perm sched (List.range (List.length indices)) → ∀ j ≤ n, (Parallel.sfsVector Parallel.Variant.current zero n indices f par pbar sched)[j]? = some (if j ∈ indices then f j else zero) := @PG.Parallel.sfs_moment_parallel_eq_sequential
+
+/-- the same for the matrix of SFSDistribution.cov -/
+theorem pool_sfs_matrix : ∀ {β : Type} (zero : β) (n : ℕ) (indices : List (ℕ × ℕ)) (f : ℕ × ℕ → β) (par pbar : Bool) (sched : List ℕ), List.Perm sched (List.range (List.length indices)) → ∀ (i j : ℕ), i ≤ n → j ≤ n → Parallel.entry? (Parallel.sfsMatrix Parallel.Variant.current zero n indices f par pbar sched) i j = some (if (i, j) ∈ indices then f (i, j) else zero) := @PG.Parallel.sfs_cov_parallel_eq_sequential
+
+/-- an unordered iterator gives the data order exactly for the identity schedule -/
+theorem pool_unordered_iff : ∀ {α β : Type} (f : α → β) (data : List α) (sched : List ℕ), List.Perm sched (List.range (List.length data)) → Function.Injective f → List.Nodup data → (Parallel.imapUnordered f data sched = List.map f data ↔ sched = List.range (List.length data)) := @PG.Parallel.imapUnordered_eq_map_iff
+
+/-- imap_unordered behind the progress bar (a seeded change): values land in the wrong frequency class -/
+theorem pool_unordered_counterexample : Parallel.sfsVector Parallel.Variant.unorderedWithPbar 0 4 [1, 2, 3] (fun i ↦ 10 * i) true true [1, 2, 0] = [0, 20, 30, 10, 0] ∧ Parallel.sfsVector Parallel.Variant.current 0 4 [1, 2, 3] (fun i ↦ 10 * i) true true [1, 2, 0] = [0, 10, 20, 30, 0] ∧ Parallel.sfsVector Parallel.Variant.unorderedWithPbar 0 4 [1, 2, 3] (fun i ↦ 10 * i) true false [1, 2, 0] = [0, 10, 20, 30, 0] ∧ Parallel.sfsVector Parallel.Variant.unorderedWithPbar 0 4 [1, 2, 3] (fun i ↦ 10 * i) false true [1, 2, 0] = [0, 10, 20, 30, 0] := @PG.Parallel.unordered_counterexample
 
 /-- the CONCRETE cache key (what Epoch.__hash__ hashes): equal keys give the same table of sizes and rates to the transitions -/
 theorem epoch_key_sound : ∀ (I : Config.Input) {e₁ e₂ : Epoch}, EpochKey.key e₁ = EpochKey.key e₂ → EndToEnd.tableOfEpoch I e₁ = EndToEnd.tableOfEpoch I e₂ := @PG.EpochKey.key_sound_table
@@ -121,6 +139,11 @@ theorem share_forgets_locus_defect : Share.eqKey Share.EqVariant.current Share.e
 end PG.C17
 
 #print axioms PG.C17.refinement
+#print axioms PG.C17.pool_schedule_irrelevant
+#print axioms PG.C17.pool_sfs_vector
+#print axioms PG.C17.pool_sfs_matrix
+#print axioms PG.C17.pool_unordered_iff
+#print axioms PG.C17.pool_unordered_counterexample
 #print axioms PG.C17.epoch_key_sound
 #print axioms PG.C17.epoch_key_cache
 #print axioms PG.C17.epoch_key_complete
